@@ -248,8 +248,11 @@ def gen_cases(rng, tier, search):
     for x in nm:
         if not re.fullmatch(r"[A-Za-z_][A-Za-z0-9_]*", x) or x in ("None", "True", "False", "__debug__"):
             continue
-        for mode in ("direct", "exec", "eval", "func", "user"):
+        for mode in ("direct", "exec", "eval", "func", "user", "gfunc", "nested", "comp", "cls"):
             cases.append(Case({"kind": "name", "name": x, "mode": mode}, None, tags=("name", "name-" + mode)))
+        if x in NAMED:
+            # natively compiled code (lambda) has the host's builtins – documented; recorded as finding C17-F2
+            cases.append(Case({"kind": "name", "name": x, "mode": "lambda"}, None, tags=("name", "name-lambda")))
     for x in NAMED:
         cases.append(Case({"kind": "call", "name": x}, None, tags=("call",)))
     return cases
@@ -384,7 +387,14 @@ async def _run_name(c):
     x, mode = p["name"], p["mode"]
     S["IE"].set_allow_all_imports(False)
     src = {"direct": f"__r = {x}", "exec": f"exec({('__r = ' + x)!r})", "eval": f"__r = eval({x!r})",
-           "func": f"def __f():\n    return {x}\n__r = __f()", "user": f"{x} = 12345\n__r = {x}"}[mode]
+           "func": f"def __f():\n    return {x}\n__r = __f()", "user": f"{x} = 12345\n__r = {x}",
+           # every other way a plain name can be looked up: a function that declares it global, a nested function,
+           # a comprehension, a class body
+           "gfunc": f"def __f():\n    global {x}\n    return {x}\n__r = __f()",
+           "nested": f"def __f():\n    def __g():\n        return {x}\n    return __g()\n__r = __f()",
+           "comp": f"__r = [{x} for __i in [1]][0]",
+           "cls": f"class __C:\n    v = {x}\n__r = __C.v",
+           "lambda": f"__r = (lambda: {x})()"}[mode]
     g, a, exc = await _exec("script", src)
     if exc is not None:
         res = "evalName" if isinstance(exc, NameError) else "exc:" + type(exc).__name__
@@ -402,7 +412,12 @@ async def _run_name(c):
             res = "other:" + type(v).__name__
     c.impl = res
     func = x in S["Function"].functions or x in S["Function"].ast_functions
-    c.line = "C17 " + sx(["name", x, mode == "user", hasattr(builtins, x), func])
+    if mode == "lambda":
+        c.line = None
+    elif mode == "gfunc":
+        c.line = "C17 " + sx(["nameg", x, False])
+    else:
+        c.line = "C17 " + sx(["name", x, mode == "user", hasattr(builtins, x), func])
     p["_obs"] = {"res": res, "is_host": bool(exc is None and hasattr(builtins, x)
                                             and g.global_sym_table.get("__r") is getattr(builtins, x))}
 
@@ -490,6 +505,8 @@ def verdict(c):
         return None
     if p["kind"] == "name":
         x = p["name"]
+        if p["mode"] == "lambda" and (x in NAMED or x.startswith("_")) and o["is_host"]:
+            return f"native-code-builtins: {x!r} inside a lambda (natively compiled) resolves to the host builtin"
         if p["mode"] != "user" and (x in NAMED or x.startswith("_")) and o["is_host"]:
             return f"builtin-reachable: plain name {x!r} ({p['mode']}) resolves to the host builtin"
         return None
